@@ -62,8 +62,11 @@ def describe_msg(item):
         len(getattr(item, 'variable_items', []) or []))
 
 
-def observe(role, steps, cuts, mode, recv_size, pending):
-    script = convo.build_script(role, steps, cuts, mode)
+def observe(role, steps, cuts, mode, recv_size, pending, eof=False):
+    if eof:
+        # the peer's close arrives in the same segment as the last bytes of the burst it follows
+        steps = convo.with_final_close(steps)
+    script = convo.build_script(role, steps, cuts, mode, eof_merge=eof)
     sim = simnet.Sim(role, script, max_pdu_length=recv_size, first_pending=pending)
     # conservation monitor: evaluated at every snapshot through a light hook on Sim.snapshot
     delivered = {'n': 0, 'bad': None, 'checks': 0}
@@ -99,7 +102,7 @@ def observe(role, steps, cuts, mode, recv_size, pending):
     return obs, delivered
 
 
-def cut_sets(steps, tier, seed, name):
+def cut_sets(steps, tier, seed, name, pairs=True):
     """Yield (label, cuts dict or None, mode)."""
     streams = convo.peer_stream(steps)
     yield 'whole', None, 'whole'
@@ -111,7 +114,7 @@ def cut_sets(steps, tier, seed, name):
             if x not in bounds:
                 yield 'cut1+pdu:%d:%d' % (idx, x), {idx: sorted(set(bounds + [x]))}, 'pdu'
     total = sum(len(b) for _, b, _ in streams)
-    pairs_ok = tier == 'thorough' or total <= 200
+    pairs_ok = pairs and (tier == 'thorough' or total <= 210)
     if pairs_ok:
         for idx, blob, bounds in streams:
             for x, y in itertools.combinations(range(1, len(blob)), 2):
@@ -132,21 +135,34 @@ def plan(tier, seed):
         for recv in RECV_SIZES:
             for pending in (False, True):
                 specs.append({'name': name, 'recv': recv, 'pending': pending})
+    for name, (role, steps) in convo.corpus().items():
+        if convo.eof_point(convo.with_final_close(steps)) is not None:
+            for recv in RECV_SIZES:
+                specs.append({'name': name, 'recv': recv, 'pending': recv == 16, 'eof': True})
     return specs
 
 
 def run_shard(spec, tier, seed):
     res = Result()
     role, steps = convo.corpus()[spec['name']]
+    eof = bool(spec.get('eof'))
+    if eof:
+        # baseline: the same conversation with the close delivered on its own, after the last burst
+        steps = convo.with_final_close(steps)
     base, _ = observe(role, steps, None, 'pdu', 65536, False)
     if base['outcome'] != 'end-of-script':
         res.violation('baseline-run-failed', 'C03.baseline',
                       'conversation %s: one-PDU-per-segment run ended with %s %s' % (
                           spec['name'], base['outcome'], base['error']), dict(spec, label='baseline'))
         return res
-    for label, cuts, mode in cut_sets(steps, tier, seed, spec['name']):
+    # quick tier: pairs of cuts only in the plain configuration (thorough: everywhere)
+    pairs = tier == 'thorough' or (spec['recv'] == 65536 and not spec['pending'])
+    for label, cuts, mode in cut_sets(steps, tier, seed, spec['name'], pairs):
+        if eof and label.startswith(('cut2', 'cut1+pdu')):
+            continue
         case = {'conversation': spec['name'], 'recv': spec['recv'], 'pending': spec['pending'],
-                'label': label, 'cuts': {str(k): v for k, v in (cuts or {}).items()}, 'mode': mode}
+                'label': label, 'cuts': {str(k): v for k, v in (cuts or {}).items()}, 'mode': mode,
+                'eof': eof}
         check_case(res, case, role, steps, base)
     return res
 
@@ -154,6 +170,8 @@ def run_shard(spec, tier, seed):
 def replay(case):
     res = Result()
     role, steps = convo.corpus()[case['conversation']]
+    if case.get('eof'):
+        steps = convo.with_final_close(steps)
     base, _ = observe(role, steps, None, 'pdu', 65536, False)
     check_case(res, case, role, steps, base)
     return res
@@ -162,9 +180,10 @@ def replay(case):
 def check_case(res, case, role, steps, base):
     res.evaluations += 1
     cuts = {int(k): v for k, v in case['cuts'].items()} or None
-    obs, delivered = observe(role, steps, cuts, case['mode'], case['recv'], case['pending'])
-    res.distinct.add('%s|%s|%d|%d' % (case['conversation'], case['label'], case['recv'],
-                                      case['pending']))
+    obs, delivered = observe(role, steps, cuts, case['mode'], case['recv'], case['pending'],
+                             bool(case.get('eof')))
+    res.distinct.add('%s|%s|%d|%d|%d' % (case['conversation'], case['label'], case['recv'],
+                                         case['pending'], bool(case.get('eof'))))
     res.sample({'case': case, 'events': obs['events'], 'wire_len': len(obs['wire']),
                 'indications': [i[0] for i in obs['indications']]}, limit=4)
     res.count('oracle.differential')
